@@ -20,6 +20,8 @@
    below a `$not`), both without any bound on depth, width or values. *)
 From Coq Require Import List ZArith String Bool.
 From LV Require Import Ledger.Filter Ledger.FilterProofs.
+From LV Require Ledger.Types Ledger.Core Ledger.Reads Ledger.MetaFilterProofs.   (* qualified: the read model over histories *)
+From Coq Require Import ZArith.
 Import ListNotations.
 Open Scope string_scope.
 
@@ -76,6 +78,53 @@ Theorem C20_count : forall R pit f es sel,
   flt_list R pit f es = FrOk sel -> flt_count R pit f es = Some (List.length sel).
 Proof. exact count_is_length. Qed.
 Print Assumptions C20_count.
+
+(* ---------------- "with or without a point in time": metadata filters over the read model (Ledger/Reads.v)
+   [Reads.mfilter] = metadata[k] match, `$exists` metadata k, `$and` / `$or` / `$not`; [mf_filter] embeds it in [filter];
+   [Reads.msat q m] = its meaning on a metadata object.  For the three resources that carry ACCOUNT metadata (accounts, volumes,
+   aggregated balances): the filter is valid, the condition the code emits is TRUE / FALSE exactly as [msat] says of the
+   metadata COLUMN of the dataset row, and list = the entities whose column satisfies it ... *)
+Theorem C20_metadata_filter_sql : forall R e q, ent_kind R e = true -> MetaFilterProofs.acc_res R = true ->
+  flt_validate R (MetaFilterProofs.mf_filter q) = FvOk /\
+  flt_eval (flt_emit R (MetaFilterProofs.mf_filter q)) (row_of e) = Some (tri_of_bool (Reads.msat q (MetaFilterProofs.ent_meta e))).
+Proof. intros R e q Hk HR. split; [apply MetaFilterProofs.mf_valid; exact HR | apply MetaFilterProofs.mf_emit_sound; assumption]. Qed.
+Print Assumptions C20_metadata_filter_sql.
+Theorem C20_metadata_filter_list : forall R pit q es, MetaFilterProofs.acc_res R = true ->
+  (forall e, In e es -> ent_kind R e = true /\ wf_entity e) ->
+  flt_list R pit (MetaFilterProofs.mf_filter q) es = FrOk (List.filter (fun e => Reads.msat q (MetaFilterProofs.ent_meta e)) es).
+Proof. exact MetaFilterProofs.mf_list. Qed.
+Print Assumptions C20_metadata_filter_list.
+
+(* ... and WHICH metadata that column holds at a point in time t is the subject of C17: with ACCOUNT_METADATA_HISTORY = SYNC,
+   for every history split at t, a listing at t filtered by metadata selects exactly the rows of the unfiltered listing at t
+   whose account satisfied the filter AT t ([acc_meta_cur (run f h1) a] = metadata of a in the state reached at t, '{}' if a
+   did not exist then) — volumes (any start time, either date mode), accounts, aggregated balances *)
+Theorem C20_pit_volumes_metadata_filter : forall f h1 h2 t w q u v,
+  Types.f_acc_hist f = true -> Forall (fun no => (fst no <= t)%Z) h1 -> Forall (fun no => (t < fst no)%Z) h2 -> Reads.w_pit w = Some t ->
+  Reads.read_volumes f (Core.run f (h1 ++ h2)) w = Some u -> Reads.read_volumes_q f (Core.run f (h1 ++ h2)) w (Some q) 0 = Some v ->
+  forall kv, In kv v <-> In kv u /\ Reads.msat q (Reads.acc_meta_cur (Core.run f h1) (fst (fst kv))) = true.
+Proof. exact MetaFilterProofs.read_volumes_q_as_of. Qed.
+Print Assumptions C20_pit_volumes_metadata_filter.
+Theorem C20_pit_accounts_metadata_filter : forall f h1 h2 t q r,
+  Types.f_acc_hist f = true -> Forall (fun no => (fst no <= t)%Z) h1 -> Forall (fun no => (t < fst no)%Z) h2 ->
+  (In r (Reads.read_accounts_q f (Core.run f (h1 ++ h2)) (Some t) q) <->
+   In r (Reads.read_accounts f (Core.run f (h1 ++ h2)) (Some t)) /\ Reads.msat q (Reads.acc_meta_cur (Core.run f h1) (Reads.ar_addr r)) = true).
+Proof. exact MetaFilterProofs.read_accounts_q_as_of. Qed.
+Print Assumptions C20_pit_accounts_metadata_filter.
+Theorem C20_pit_aggregated_metadata_filter : forall f h1 h2 t ins q,
+  Types.f_acc_hist f = true -> Forall (fun no => (fst no <= t)%Z) h1 -> Forall (fun no => (t < fst no)%Z) h2 ->
+  let s := Core.run f (h1 ++ h2) in
+  Reads.read_aggregated_q f s (Some t) ins q =
+  (if (if ins then Types.f_moves f else Types.f_pcev f)
+   then Some (Reads.sum_by_asset (List.filter (fun kv : Types.key * Types.vol => Reads.msat q (Reads.acc_meta_cur (Core.run f h1) (fst (fst kv)))) (Reads.volumes_at s t ins)))
+   else None).
+Proof. exact MetaFilterProofs.read_aggregated_q_as_of. Qed.
+Print Assumptions C20_pit_aggregated_metadata_filter.
+(* the WHERE runs before the grouping: a filtered, grouped volumes listing is the grouping (C05 (6)) of the filtered listing *)
+Theorem C20_filter_then_group : forall f s w q g v0,
+  Reads.read_volumes_q f s w q 0 = Some v0 -> Reads.read_volumes_q f s w q g = Some (Reads.group_volumes g v0).
+Proof. exact MetaFilterProofs.read_volumes_q_grouped. Qed.
+Print Assumptions C20_filter_then_group.
 
 (* ---------------- refutations of the full statement (vm_compute witnesses; replayed on the real code) *)
 Definition w_tx : tx_ent := mkTx 1 None 100 100 100 None [] ["world"] ["bank"].
@@ -143,4 +192,14 @@ Example C20_example :
   flt_list RTx false ex_f [ETx ex_t1; ETx ex_t2] = FrOk [ETx ex_t1] /\
   flt_ref RTx ex_f [ETx ex_t1; ETx ex_t2] = [ETx ex_t1] /\
   flt_count RTx false ex_f [ETx ex_t1; ETx ex_t2] = Some 1%nat.
+Proof. vm_compute. repeat split. Qed.
+
+(* non-vacuity of the metadata-filter theorems: a nested filter on two volume rows *)
+Example C20_metadata_filter_example :
+  let q := Reads.MfAnd (Reads.MfNot (Reads.MfMatch "role" "v2")) (Reads.MfOr (Reads.MfExists "k1") (Reads.MfMatch "role" "v1")) in
+  let v1 := mkVol "users:1" "USD" 10 3 [("role", "v1")] 100 in
+  let v2 := mkVol "bank" "USD" 5 0 [("role", "v2"); ("k1", "x")] 100 in
+  flt_list RVol true (MetaFilterProofs.mf_filter q) [EVol v1; EVol v2] = FrOk [EVol v1] /\
+  Reads.msat q (fv_metadata v1) = true /\ Reads.msat q (fv_metadata v2) = false /\
+  flt_prefilter RVol true (MetaFilterProofs.mf_filter q) = None.
 Proof. vm_compute. repeat split. Qed.
